@@ -212,7 +212,7 @@ CLAIMED["C16"] = {
             "Not decided: achieved means, variances, covariances. "
             "Also decided: `transform` of a fitted scaler / whitener takes no statistic across the samples of the matrix it transforms (column means, sums .. of the input). "
             "`transform` hands the input back untouched for an empty matrix only; no mean of per-block means with one weight per block in the fit statistics. "
-            "Every arm of the norm dispatcher calls norm_l1 / norm_l2 / norm_max or reduces absolute values; every non-optional field a method of a serialisable scaler reads takes part in the serialised form (no `serde(skip)` on a derived flag). NormScaler leaves a row unscaled only under an *exact* comparison of its norm with zero; no singular value / eigenvalue (or its inverse) is clamped by an absolute constant in Whitener::fit (both floors of the pinned tree were absolute: repaired in dfbc6f2, now relative to the largest value).",
+            "Every arm of the norm dispatcher calls norm_l1 / norm_l2 / norm_max or reduces absolute values; every non-optional field a method of a serialisable scaler reads takes part in the serialised form (no `serde(skip)` on a derived flag). NormScaler leaves a row unscaled only under an *exact* comparison of its norm with zero; no singular value / eigenvalue (or its inverse) is clamped by an absolute constant in Whitener::fit (both floors of the pinned tree were absolute: repaired in dfbc6f2, now relative to the largest value). Formula level (rules/formula.py): for a non-constant column the fitted offset and scale, read as formulas of the column's mean / standard deviation / minimum / maximum / largest absolute value, composed with the element map of transform give the documented maps - min-max sends the column minimum to the lower and the maximum to the upper end of the requested range (both ends attained), max-abs is x / maxabs, standard scaling is (x - mean) / std.",
     "design_ref": "DESIGN.md section 4, C16",
     "note": "Trusted: rustc resolution/typeck, the fact dump. Divisions by singular values in the whiteners are outside the rule (the property claims whitening on full-rank data only).",
     "technique": _T + ": provenance of the output dataset's containers, dominance of the empty-input guard, zero-guard contradiction rule on data-derived divisors",
